@@ -304,7 +304,8 @@ def handle (c obs : String) : String × Bool × String :=
       else ("bad-case", false, "type")
     | _, _ => ("bad-case", false, "unparsable case")
   | ["mm", op, ty] :: [[vals]] =>
-    let isMax? : Option Bool := match op with
+    -- "<op>@ch" / "<op>@cur": the same over a one-shot source (harness/run/c14.go); the model is over the sequence
+    let isMax? : Option Bool := match (op.splitOn "@").headD op with
       | "max" | "maxlazy" => some true
       | "min" | "minlazy" => some false
       | _ => none
